@@ -1380,6 +1380,12 @@ def make_hostile_server(tree, outside: bytes, extreme: bool = False):
 
         def lstat(self, path):
             node = self._find(path, 'fdl')
+
+            if node['t'] == 'l' and node.get('lie'):
+                # a second answer about the same name that contradicts the
+                # listing: "a regular file" where the listing said symlink
+                return attrs_of('f', node.get('size', 0))
+
             return attrs_of(node['t'], node.get('size', 0))
 
         def stat(self, path):
@@ -1481,6 +1487,9 @@ def tree_labels(tree, labels: set) -> bool:
 
         if node['t'] == 'l':
             tgt = node['tgt']
+
+            if node.get('lie'):
+                labels.add('lstat-contradicts-listing')
 
             if b'..' in tgt.split(b'/') or tgt.startswith((b'/', b'$OUT')):
                 labels.add('outward-symlink')
@@ -1592,9 +1601,11 @@ def get_tree(depth: int, width: int):
             lambda t: {'n': t[0], 't': 'd', 'kids': t[1]})
         ln = st.tuples(name, pick(GET_TARGETS),
                        pick(['', 'f', 'd', 'd']),
-                       st.integers(0, 20), children).map(
+                       st.integers(0, 20), children,
+                       pick([False, False, True])).map(
             lambda t: {'n': t[0], 't': 'l', 'tgt': t[1], 'as': t[2],
-                       'size': t[3], 'kids': t[4] if t[2] == 'd' else []})
+                       'size': t[3], 'kids': t[4] if t[2] == 'd' else [],
+                       'lie': t[5]})
         return st.one_of(f, f, d, ln)
 
     level = st.just([])
@@ -1855,6 +1866,7 @@ FAMILIES = [
                              'name:empty-comp', 'name:abs-into-box',
                              'dup-name', 'symlink-then-dir',
                              'outward-symlink', 'nested', 'preserve',
+                             'lstat-contradicts-listing',
                              'follow', 'wrote-something', 'completed',
                              'v3', 'v4', 'v5', 'v6']}),
     Family('scp-sink', run_scp_sink, strategy=scp_sink_strategy,
